@@ -81,6 +81,25 @@ def extract():
           Entry::Vacant(entry) => { entry.insert(StreamState::Waiting(waker.clone())); None } }""")
     rel = "helpers/gateway/mod.rs"
     t = read(rel)
+    # the per-channel window override: requested window -> GatewayConfig -> SendChannelConfig
+    # (Model/Channel.lean: setActiveWork, setActiveWorkFromQuery, mpcSendCfg; theorem window_honoured)
+    check("gateway.config.set_active_work", rel, t, r"pub fn set_active_work\(&self, active_work: NonZeroU32PowerOfTwo\) -> Self \{",
+          "Self { active: active_work, ..*self }")
+    check("gateway.config.set_active_work_from_query_config", rel, t, r"pub fn set_active_work_from_query_config\(&mut self, value: &QueryConfig\) \{",
+          """let active = max( 2, min( Self::default().active.get(), usize::from(value.size), ), ) .next_power_of_two();
+          self.active = NonZeroU32PowerOfTwo::try_from(active).unwrap();""")
+    m = re.search(r"let channel = self\.inner\.mpc_senders\.get::<M, _>\(\s*channel_id,\s*transport,\s*(?://[^\n]*\n\s*)*self\.config\.set_active_work\(active_work\),\s*self\.query_id,\s*total_records,\s*\);", t)
+    if m:
+        record("gateway.mpc_sender_uses_window", rel, t, m, "get_mpc_sender: mpc_senders.get(.., self.config.set_active_work(active_work), ..)")
+    else:
+        fail("gateway.mpc_sender_uses_window", "get_mpc_sender no longer configures the channel with self.config.set_active_work(active_work)")
+    rel_s = "helpers/gateway/send.rs"
+    t_s = read(rel_s)
+    m = re.search(r"fn new<M: Message>\(gateway_config: GatewayConfig, total_records: TotalRecords\) -> Self \{\s*Self::new_with\(gateway_config, total_records, M::Size::USIZE\)\s*\}", t_s)
+    if m:
+        record("gateway.config.new_uses_message_size", rel_s, t_s, m, "SendChannelConfig::new::<M> = new_with(cfg, total, M::Size)")
+    else:
+        fail("gateway.config.new_uses_message_size", "SendChannelConfig::new no longer forwards (gateway_config, total_records, M::Size::USIZE) to new_with")
     consts = {}
     m = re.search(r"active: (\d+)\.try_into\(\)\.unwrap\(\),\s*read_size: (\d+)\.try_into\(\)\.unwrap\(\),", t)
     if m:
